@@ -1073,6 +1073,12 @@ class _EvalBuilder(_Builder):
                     return C(tuple({"zip": zip, "enumerate": enumerate, "reversed": reversed, "sorted": sorted, "tuple": tuple, "list": tuple}[name](*[a[1] for a in args])))
                 except Exception:
                     return s
+            if name == "sum" and len(args) in (1, 2) and args[0][0] == "call" and args[0][1] in (N("$genexp"), N("$listcomp")) and not args[0][3] and len(args[0][2]) >= 2:
+                # sum(f(x) for x in xs) is what `total += f(x)` accumulates over a loop on xs
+                acc: Sym = args[0][2][0]
+                for it in reversed(args[0][2][1:]):
+                    acc = ("acc", it, acc)
+                return simplify(OP("+", args[1] if len(args) == 2 else C(0), acc))
             if name == "bool" and len(args) == 1 and args[0][0] == "c":
                 return C(bool(args[0][1]))
             if name in ("bool", "len") and len(args) == 1 and args[0][0] in ("list", "tuple") and not any(x[0] == "star" for x in args[0][1]):
